@@ -76,6 +76,11 @@ func (c *dupOptionChecker) getVariadicArgs(call *ast.CallExpr) ([]ast.Expr, type
 		return nil, nil
 	}
 	argType := sliceType.Elem()
+	if last > len(call.Args) {
+		// f(g()) where g returns multiple values that are spread over
+		// the fixed and the variadic parameters.
+		return nil, nil
+	}
 	return call.Args[last:], argType
 }
 
